@@ -101,11 +101,14 @@ static int mu_try_acquire_after_timeout_or_cancel (nsync_mu *mu, lock_type *l_ty
 		ATM_STORE (&w->nw.waiting, 0);
 
 		/* Release spinlock but keep desired lock type. */
-		ATM_STORE_REL (&mu->word, old_word+l_type->add_to_acquire); /* release store */
+		/* old_word may still have MU_WRITER_WAITING set (perhaps by the loop
+		   above); the acquiring CAS cleared it, so do not resurrect it.  */
+		ATM_STORE_REL (&mu->word, (old_word & ~MU_WCLEAR_ON_ACQUIRE) +
+					  l_type->add_to_acquire); /* release store */
 		success = 1;
 	} else {
 		/* Release spinlock and *mu. */
-		ATM_STORE_REL (&mu->word, old_word); /* release store */
+		ATM_STORE_REL (&mu->word, old_word & ~MU_WCLEAR_ON_ACQUIRE); /* release store */
 	}
 	RWLOCK_TRYACQUIRE (success, mu, l_type == nsync_writer_type_);
 	return (success);
